@@ -31,14 +31,16 @@ struct Runner {
 	const std::vector<std::pair<std::string, Val>>* fields = nullptr; const std::vector<Op>* script = nullptr; std::optional<Failure>* fail = nullptr; int depth = 0; bool csv = false;
 	void report(const std::string& kind, const std::string& detail) const { if (!fail->has_value()) *fail = Failure{ kind, detail }; }
 
+	// keys reach the archive as std::string or as const char* (two overloads in the adapters), chosen by the key itself so that replay is exact
+	template <class Sc, class V> static bool Fetch(Sc& sc, const std::string& key, V& v) { if constexpr (!Sc::is_binary) { if (key.size() % 3 == 0 && key.find('\0') == std::string::npos) return Serialize(sc, key.c_str(), v); } return Serialize(sc, key, v); }
 	template <class Sc> void get_typed(Sc& sc, const std::string& key, const Val& want) const {
 		switch (want.t) {
-		case RT::Nil: { if (key.size() % 2) { int64_t v = 777001; bool ok = Serialize(sc, key, v); if (ok || v != 777001) report("a null value is reported as loaded or modifies its target", vf::cat("key '", key, "' int64 target, ok=", ok, " v=", v)); } else { std::string v = "<unset>"; bool ok = Serialize(sc, key, v); if (ok || v != "<unset>") report("a null value is reported as loaded or modifies its target", vf::cat("key '", key, "' string target, ok=", ok)); } break; }
-		case RT::Int: case RT::UInt: { int64_t v = 777001; bool ok = Serialize(sc, key, v); const int64_t w = want.t == RT::Int ? want.i : static_cast<int64_t>(want.u); if (!ok) report("a present field is reported as not loaded", vf::cat("key '", key, "'")); else if (v != w) report("a request returned the value of another field / a wrong value", vf::cat("key '", key, "' got ", v, " want ", w)); break; }
-		case RT::Str: { std::string v = "<unset>"; bool ok = Serialize(sc, key, v); if (!ok) report("a present field is reported as not loaded", vf::cat("key '", key, "'")); else if (v != want.s) report("a request returned the value of another field / a wrong value", vf::cat("key '", key, "' got '", v.substr(0, 40), "' want '", want.s.substr(0, 40), "'")); break; }
-		case RT::Bool: { bool v = !want.b; bool ok = Serialize(sc, key, v); if (!ok) report("a present field is reported as not loaded", vf::cat("key '", key, "'")); else if (v != want.b) report("a request returned the value of another field / a wrong value", vf::cat("key '", key, "' bool")); break; }
-		case RT::F64: { double v = -1.25; bool ok = Serialize(sc, key, v); if (!ok) report("a present field is reported as not loaded", vf::cat("key '", key, "'")); else if (v != want.d) report("a request returned the value of another field / a wrong value", vf::cat("key '", key, "' got ", v, " want ", want.d)); break; }
-		case RT::Arr: { std::vector<int64_t> v{ 5, 5, 5, 5, 5, 5, 5, 5, 5 }; bool ok = Serialize(sc, key, v); std::vector<int64_t> w; for (auto& e : want.arr) w.push_back(e.t == RT::Int ? e.i : static_cast<int64_t>(e.u));
+		case RT::Nil: { if (key.size() % 5 == 1 && !csv) { std::vector<uint8_t> v{ 7, 7 }; bool ok = Fetch(sc, key, v); if (ok || v != std::vector<uint8_t>{ 7, 7 }) report("a null value is reported as loaded or modifies its target", vf::cat("key '", key, "' byte-container target, ok=", ok)); } else if (key.size() % 2) { int64_t v = 777001; bool ok = Fetch(sc, key, v); if (ok || v != 777001) report("a null value is reported as loaded or modifies its target", vf::cat("key '", key, "' int64 target, ok=", ok, " v=", v)); } else { std::string v = "<unset>"; bool ok = Fetch(sc, key, v); if (ok || v != "<unset>") report("a null value is reported as loaded or modifies its target", vf::cat("key '", key, "' string target, ok=", ok)); } break; }
+		case RT::Int: case RT::UInt: { int64_t v = 777001; bool ok = Fetch(sc, key, v); const int64_t w = want.t == RT::Int ? want.i : static_cast<int64_t>(want.u); if (!ok) report("a present field is reported as not loaded", vf::cat("key '", key, "'")); else if (v != w) report("a request returned the value of another field / a wrong value", vf::cat("key '", key, "' got ", v, " want ", w)); break; }
+		case RT::Str: { std::string v = "<unset>"; bool ok = Fetch(sc, key, v); if (!ok) report("a present field is reported as not loaded", vf::cat("key '", key, "'")); else if (v != want.s) report("a request returned the value of another field / a wrong value", vf::cat("key '", key, "' got '", v.substr(0, 40), "' want '", want.s.substr(0, 40), "'")); break; }
+		case RT::Bool: { bool v = !want.b; bool ok = Fetch(sc, key, v); if (!ok) report("a present field is reported as not loaded", vf::cat("key '", key, "'")); else if (v != want.b) report("a request returned the value of another field / a wrong value", vf::cat("key '", key, "' bool")); break; }
+		case RT::F64: { double v = -1.25; bool ok = Fetch(sc, key, v); if (!ok) report("a present field is reported as not loaded", vf::cat("key '", key, "'")); else if (v != want.d) report("a request returned the value of another field / a wrong value", vf::cat("key '", key, "' got ", v, " want ", want.d)); break; }
+		case RT::Arr: { std::vector<int64_t> v{ 5, 5, 5, 5, 5, 5, 5, 5, 5 }; bool ok = Fetch(sc, key, v); std::vector<int64_t> w; for (auto& e : want.arr) w.push_back(e.t == RT::Int ? e.i : static_cast<int64_t>(e.u));
 			if (!ok) report("a present field is reported as not loaded", vf::cat("key '", key, "' (array)")); else if (v != w) report("a request returned the value of another field / a wrong value", vf::cat("key '", key, "' array of ", v.size(), " want ", w.size())); break; }
 		case RT::Map: { Runner r = *this; auto sub = fields_of(want); r.fields = &sub; std::vector<Op> all; for (size_t i = 0; i < sub.size(); i++) { Op o; o.k = Get; o.keyIdx = i; all.push_back(o); } r.script = &all; r.depth = depth + 1;
 			if constexpr (can_serialize_object_with_key_v<Sc, std::string>) { auto child = sc.OpenObjectScope(key, sub.size()); if (!child) report("a present field is reported as not loaded", vf::cat("key '", key, "' (object)")); else r.run(*child); } break; }
@@ -69,10 +71,10 @@ struct Runner {
 			const bool isInt = want.t == RT::Int || want.t == RT::UInt; const int64_t wi = want.t == RT::Int ? want.i : static_cast<int64_t>(want.u);
 			switch (op.k) {
 			case Get: get_typed(sc, key, want); break;
-			case GetViaOptional: if (isInt) { std::optional<int64_t> v; bool ok = Serialize(sc, key, v); if (!ok || !v || *v != wi) report("optional member not loaded correctly", vf::cat("key '", key, "'")); } else get_typed(sc, key, want); break;
-			case GetViaUniquePtr: if (isInt) { std::unique_ptr<int64_t> v; bool ok = Serialize(sc, key, v); if (!ok || !v || *v != wi) report("unique_ptr member not loaded correctly", vf::cat("key '", key, "'")); } else get_typed(sc, key, want); break;
-			case GetViaSharedPtr: if (want.t == RT::Str) { std::shared_ptr<std::string> v; bool ok = Serialize(sc, key, v); if (!ok || !v || *v != want.s) report("shared_ptr member not loaded correctly", vf::cat("key '", key, "'")); } else get_typed(sc, key, want); break;
-			case GetViaAtomic: if (isInt) { std::atomic<int64_t> v{ 9 }; bool ok = Serialize(sc, key, v); if (!ok || v.load() != wi) report("std::atomic member not loaded correctly", vf::cat("key '", key, "' -> ", v.load())); } else get_typed(sc, key, want); break;
+			case GetViaOptional: if (isInt) { std::optional<int64_t> v; bool ok = Fetch(sc, key, v); if (!ok || !v || *v != wi) report("optional member not loaded correctly", vf::cat("key '", key, "'")); } else get_typed(sc, key, want); break;
+			case GetViaUniquePtr: if (isInt) { std::unique_ptr<int64_t> v; bool ok = Fetch(sc, key, v); if (!ok || !v || *v != wi) report("unique_ptr member not loaded correctly", vf::cat("key '", key, "'")); } else get_typed(sc, key, want); break;
+			case GetViaSharedPtr: if (want.t == RT::Str) { std::shared_ptr<std::string> v; bool ok = Fetch(sc, key, v); if (!ok || !v || *v != want.s) report("shared_ptr member not loaded correctly", vf::cat("key '", key, "'")); } else get_typed(sc, key, want); break;
+			case GetViaAtomic: if (isInt) { std::atomic<int64_t> v{ 9 }; bool ok = Fetch(sc, key, v); if (!ok || v.load() != wi) report("std::atomic member not loaded correctly", vf::cat("key '", key, "' -> ", v.load())); } else get_typed(sc, key, want); break;
 			case OpenArrayPartly:
 				if (want.t == RT::Arr) { if constexpr (can_serialize_array_with_key_v<Sc, std::string>) { auto child = sc.OpenArrayScope(key, want.arr.size());
 					if (!child) report("a present field is reported as not loaded", vf::cat("key '", key, "' (array scope)"));
@@ -104,6 +106,7 @@ struct XmlEnvelope { std::string pad; ScriptedObject obj; std::string sentinel; 
 
 std::string gen_key(vf::Src& s, size_t idx, int archId) {
 	std::string k; if (archId == XML || s.coin()) { static const char* n[] = { "id", "name", "Key", "_v", "a.b", "x-y", "Ключ" }; k = n[s.draw(7)]; } else { size_t n = 1 + s.draw(6); for (size_t i = 0; i < n; i++) k.push_back(static_cast<char>(0x21 + s.draw(0x5e))); if (s.chance(1, 5)) k += std::string(20 + s.draw(40), 'k'); }
+	if (idx == 0 && (archId == MSGPACK || archId == JSON) && s.chance(1, 10)) return std::string();   // the empty string is a valid member name
 	return k + std::to_string(idx);
 }
 Val gen_value(vf::Src& s, int depth, int archId) {
